@@ -3639,7 +3639,8 @@ void space_text()
                && tmp->Len() > 0)
             {
                bool kw1 = CharTable::IsKw2(pc->GetStr()[pc->Len() - 1]);
-               bool kw2 = CharTable::IsKw1(next->GetStr()[0]);
+               // a digit continues a word as well: 'throw 1' must not become 'throw1'
+               bool kw2 = CharTable::IsKw2(next->GetStr()[0]);
 
                if (  kw1
                   && kw2)
